@@ -70,25 +70,33 @@ theorem ask_lengths (C : Crypto) (q : Query) : (ask C.toCryptoFns q).key.length 
 /-- the two Argon2id parameter lists and the two additional-data strings in the tree coincide (regenerated) -/
 theorem kdf_ad_fact : Gen.argonParams_Set = Gen.argonParams_SetFromJSON ∧ Gen.sealAD = Gen.openAD ∧
     Gen.sealAD = [122, 101, 110, 111, 110] ∧ Gen.argonParams_Set = [1, 65536, 4, 32] ∧
-    Gen.nonceLen = 12 ∧ Gen.saltLen = 16 := by decide
+    Gen.nonceLen = 12 ∧ Gen.saltLen = 16 ∧ Gen.nonceLen = Gen.gcmNonceSize := by decide
 
-/-- T4a `keyfile_roundtrip`: decrypting the key file made from `ks` with password `pw` (any salt, any nonce)
-    with the same password yields exactly the entropy of `ks`. Uses only `open_seal`. -/
-theorem keyfile_roundtrip (C : Crypto) (ks : KeyStore) (pw salt nonce : Bytes) :
+/-- T4a `keyfile_roundtrip`: decrypting the key file made from `ks` with password `pw` (any salt, any nonce of the
+    length `Encrypt` draws) with the same password yields exactly the entropy of `ks`. Uses only `open_seal`. -/
+theorem keyfile_roundtrip (C : Crypto) (ks : KeyStore) (pw salt nonce : Bytes) (hn : nonce.length = Gen.nonceLen) :
     decryptEntropy C.toCryptoFns (encrypt C.toCryptoFns ks pw salt nonce) pw = .ok ks.entropy := by
   have h1 : Gen.argonParams_SetFromJSON = Gen.argonParams_Set := by decide
   have h2 : Gen.openAD = Gen.sealAD := by decide
-  simp only [decryptEntropy, encrypt, h1, h2, C.open_seal]
+  have h3 : Gen.nonceLen = Gen.gcmNonceSize := by decide
+  simp only [decryptEntropy, encrypt, h1, h2, C.open_seal, hn, h3, ne_eq, not_true_eq_false, if_false]
 
 /-- T4b: … and the whole key store is recovered: `Decrypt(Encrypt(ks))` = `keyStoreFromEntropy(entropy)` = `ks`
     for every key store that came from `keyStoreFromEntropy`; the written file passes `ReadKeyFile`'s checks. -/
 theorem keystore_roundtrip (C : Crypto) (entropy : Bytes) (ks : KeyStore) (pw salt nonce : Bytes)
-    (hks : keyStoreFromEntropy C.toCryptoFns entropy = .ok ks) :
+    (hn : nonce.length = Gen.nonceLen) (hks : keyStoreFromEntropy C.toCryptoFns entropy = .ok ks) :
     readChecks (encrypt C.toCryptoFns ks pw salt nonce) = .ok (encrypt C.toCryptoFns ks pw salt nonce) ∧
     decrypt C.toCryptoFns (encrypt C.toCryptoFns ks pw salt nonce) pw = .ok ks := by
   have he : ks.entropy = entropy := keyStoreFromEntropy_entropy C.toCryptoFns entropy ks hks
   refine ⟨by simp [readChecks, encrypt], ?_⟩
-  simp only [decrypt, keyfile_roundtrip, he, hks]
+  simp only [decrypt, keyfile_roundtrip C ks pw salt nonce hn, he, hks]
+
+/-- T4b′: what the code does on a key file whose nonce is not 12 bytes: `Decrypt` does not return an error, the AEAD
+    panics (modelled as the outcome `nonceLength`). A file written by `Encrypt` never has such a nonce (T4a). -/
+theorem decrypt_bad_nonce_length (C : CryptoFns) (kf : KeyFile) (pw : Bytes) (h : kf.nonce.length ≠ 12) :
+    decryptEntropy C kf pw = .error .nonceLength := by
+  have : Gen.gcmNonceSize = 12 := by decide
+  simp [decryptEntropy, this, h]
 
 /-- T4c: the address recorded in the key file is the address of derivation index 0 of the seed. -/
 theorem keyfile_base_address (C : CryptoFns) (entropy : Bytes) (ks : KeyStore) (pw salt nonce : Bytes)
@@ -128,13 +136,13 @@ theorem derive_deterministic (C : CryptoFns) (p₁ p₂ s₁ s₂ : Bytes) (hp :
 example : Crypto := toyCrypto
 /-- … and with it index 0 derives and the key file round-trips on a concrete 16-byte entropy -/
 example : ∃ ks, keyStoreFromEntropy toyCrypto.toCryptoFns (List.replicate 16 7) = .ok ks ∧
-    decrypt toyCrypto.toCryptoFns (encrypt toyCrypto.toCryptoFns ks [1] [2] [3]) [1] = .ok ks := by
+    decrypt toyCrypto.toCryptoFns (encrypt toyCrypto.toCryptoFns ks [1] [2] (List.replicate 12 3)) [1] = .ok ks := by
   obtain ⟨kp, hkp⟩ := (derive_index toyCrypto.toCryptoFns 0 (List.replicate 16 7) (by decide)).2 (by decide)
   have hks : keyStoreFromEntropy toyCrypto.toCryptoFns (List.replicate 16 7) =
       .ok ⟨List.replicate 16 7, List.replicate 16 7, List.replicate 16 7, kp.address⟩ := by
     have hm : toyCrypto.toCryptoFns.mnemonic (List.replicate 16 7) = some (List.replicate 16 7) := by decide
     have hs : toyCrypto.toCryptoFns.seed (List.replicate 16 7) = List.replicate 16 7 := rfl
     simp only [keyStoreFromEntropy, hm, hs, hkp]
-  exact ⟨_, hks, (keystore_roundtrip toyCrypto _ _ [1] [2] [3] hks).2⟩
+  exact ⟨_, hks, (keystore_roundtrip toyCrypto _ _ [1] [2] (List.replicate 12 3) (by decide) hks).2⟩
 
 end ZV.C19
